@@ -235,3 +235,115 @@ func Harness_C05_q_scripted() {
 func Harness_C05_t_scripted_3() {
 	c05Scripted(3, 3, []int{0, 1})
 }
+
+// A multi-frame message (full 1024-byte frames followed by a last frame) handed to one
+// Decrypt call: any alteration of any of its frames (one byte XORed at a symbolic position,
+// frames swapped, a frame dropped or duplicated) yields an error and releases at most the
+// plaintext of the unmodified leading frames; the intact message is accepted.
+func Harness_C05_q_multi_frame_message() {
+	var secret [32]byte
+	copy(secret[:], verif.Bytes("secret", 32))
+	accC, _ := NewSecureSessionFromSharedKey(secret)
+	ctlC, _ := NewSecureClientSessionFromSharedKey(secret)
+	acc, ctl := accC.(*secureSession), ctlC.(*secureSession)
+	c0 := verif.U64("c0")
+	verif.Assume(c0 < 0xffffffffffffff00)
+	acc.decryptCount, ctl.encryptCount = c0, c0
+	n := []int{1025, 2048 + 7}[verif.Choice("message-len", 2)]
+	P := verif.Bytes("p", n)
+	r, _ := ctl.Encrypt(bytes.NewBuffer(append([]byte{}, P...)))
+	wire, _ := ioutil.ReadAll(r)
+	var frames [][]byte
+	for off, rest := 0, n; rest > 0; {
+		f := rest
+		if f > 1024 {
+			f = 1024
+		}
+		frames = append(frames, wire[off:off+2+f+16])
+		off += 2 + f + 16
+		rest -= f
+	}
+	k := len(frames)
+	// the adversary's version of the message
+	var S []byte
+	altered := 0 // index of the first frame that is not the honest one, k if none
+	alteredSet := false
+	mark := func(i int) {
+		if !alteredSet {
+			altered, alteredSet = i, true
+		}
+	}
+	switch verif.Choice("alteration", 5) {
+	case 0: // intact
+		verif.Fact("alteration", "none")
+		S = append(S, wire...)
+	case 1: // one byte of one frame XORed
+		verif.Fact("alteration", "bit-flip")
+		which := verif.Choice("which-frame", k)
+		for i, f := range frames {
+			g := append([]byte{}, f...)
+			if i == which {
+				// representative positions: first / middle / last ciphertext byte, first / last tag
+				// byte (flips of the length field are explored with small frames elsewhere)
+				cands := []int{2, len(g) / 2, len(g) - 17, len(g) - 16, len(g) - 1}
+				pos := cands[verif.Choice("flip-pos", len(cands))]
+				m := verif.U8("flip-mask")
+				verif.Assume(m != 0)
+				g[pos] ^= m
+				mark(i)
+			}
+			S = append(S, g...)
+		}
+	case 2: // first two frames swapped
+		verif.Fact("alteration", "swap")
+		S = append(append(append(S, frames[1]...), frames[0]...), bytesJoin(frames[2:])...)
+		mark(0)
+	case 3: // a frame dropped
+		verif.Fact("alteration", "drop")
+		which := verif.Choice("which-frame", k-1) // dropping the last one is a truncation at a frame boundary: a valid shorter stream
+		for i, f := range frames {
+			if i != which {
+				S = append(S, f...)
+			}
+		}
+		mark(which)
+	default: // a frame duplicated
+		verif.Fact("alteration", "duplicate")
+		which := verif.Choice("which-frame", k-1)
+		for i, f := range frames {
+			S = append(S, f...)
+			if i == which {
+				S = append(S, f...)
+				mark(i + 1)
+			}
+		}
+	}
+	if !alteredSet {
+		altered = k
+	}
+	verif.MakeCap(len(S))
+	out, err := acc.Decrypt(bytes.NewBuffer(S))
+	if altered == k {
+		verif.Assert(err == nil, "intact-message-accepted")
+		if err == nil {
+			got, _ := ioutil.ReadAll(out)
+			verif.Assert(verif.Eq(got, P), "intact-message-plaintext")
+		}
+	} else {
+		verif.Assert(err != nil, "altered-frame-reported")
+		if out != nil {
+			got, _ := ioutil.ReadAll(out)
+			lim := altered * 1024
+			verif.Assert(len(got) <= lim && len(got)%1024 == 0 && verif.Eq(got, P[:len(got)]), "released-is-unmodified-frame-prefix")
+		}
+	}
+	verif.Reach("end")
+}
+
+func bytesJoin(xs [][]byte) []byte {
+	out := []byte{}
+	for _, x := range xs {
+		out = append(out, x...)
+	}
+	return out
+}
